@@ -47,6 +47,10 @@ CLAIMED = {
    text="Seeded programs over-sampling INPUT (prompt / no prompt / leading comma, 1-5 targets of every type, array targets subscripted by earlier targets, in loops, subroutines, IF branches and direct mode) answered by synthesised replies of clearly valid, clearly invalid and structurally wrong classes with up to two bad replies before an accepted one; the request / REDO / request protocol, the caps flag and everything printed afterwards are compared with RefBASIC's reply model.",
    note="Trusted: RefBASIC's reply grammar; grey-zone spellings are never generated. Interrupts in each protocol state are enumerated by C13.",
    tech="deterministic simulation: request/retry protocol between VM and simulated terminal with hostile replies, reference reply model"),
+ "C20": dict(cat="exploration", ref="DESIGN.md section 5 C20",
+   text="Seeded twin comparison: (a) one generated program rendered under two layouts (monotone renumbering with seeded gaps, inserted REM / ':'-only lines, multi-statement lines split into consecutive lines, unreachable lines appended) is run on two real runtimes under different slice schedules and the transcripts and final variables must agree once reported line numbers are mapped back to the originating statement; (b) a direct statement list typed into a fresh runtime is compared with the same list typed with small / large / compile-error-carrying resident programs after other direct lines (failed, looping, syntactically wrong), and with the one-line program `10 <list>` + RUN.",
+   note="Trusted: the layout transformations preserve meaning (targets are AST indices, re-rendered); TRON excluded; DATA lines never moved; direct lists carry no line references and no READ.",
+   tech="deterministic simulation: seeded layout configurations and resident-program / direct-line histories, twin-runtime differential oracle under different slice schedules"),
 }
 
 NOT_APPLICABLE = {
